@@ -1,6 +1,7 @@
 package limit_test
 
 import (
+	"context"
 	"fmt"
 		"sync"
 	"testing"
@@ -25,7 +26,8 @@ type c08TOp struct {
 	N int    `json:"n,omitempty"` // tokens requested
 	C int    `json:"c,omitempty"` // callow: concurrent callers, each requesting N
 	D int    `json:"d,omitempty"` // adv / recover: milliseconds
-	M string `json:"m,omitempty"` // adv: "" both clocks | "caller" | "server"
+	M string `json:"m,omitempty"` // adv: "" both clocks | "caller" | "server"; outage: kind
+	V string `json:"v,omitempty"` // allow: entry point, "" AllowN | "ctx" AllowNCtx | "now" Allow | "nowctx" AllowCtx (n = 1, clocks coupled)
 }
 
 type c08TCase struct {
@@ -149,10 +151,12 @@ const (
 func c08TokenInterp(t *testing.T, c c08TCase, rule int) (v kit.Verdict) {
 	srv := c08GetServer()
 	srv.reset()
+	c08Seq++
 	var fail string
 	classes := map[string]bool{}
 	ntDenyThenGrant := false
 	ntOutageDeny, ntRecovered := false, false
+	stalled := false
 	res := kit.Bubble(t, func() {
 		store := redis.New(srv.addr)
 		base := c08Epoch // caller clock origin: data, independent of the bubble clock
@@ -167,7 +171,7 @@ func c08TokenInterp(t *testing.T, c c08TCase, rule int) (v kit.Verdict) {
 		outTokens := make([]int64, nl) // tokens requested in the current outage
 		onRedis := make([]bool, nl)    // restart rule: served by Redis since the last restart
 		for i, l := range c.Lims {
-			keys[i] = fmt.Sprintf("c08t%d", i)
+			keys[i] = fmt.Sprintf("c08t%d_%d", c08Seq, i)
 			lims[i] = limit.NewTokenLimiter(l.Rate, l.Burst, store, keys[i])
 			redisB[i] = &c08Bucket{rate: int64(l.Rate), burst: int64(l.Burst)}
 			rescB[i] = &c08Rescue{rate: int64(l.Rate), burst: int64(l.Burst)}
@@ -250,13 +254,29 @@ func c08TokenInterp(t *testing.T, c c08TCase, rule int) (v kit.Verdict) {
 		}
 
 		// one request (or a batch of identical concurrent requests) against limiter l
-		request := func(what string, l int, n int64, callers int) bool {
+		request := func(what string, l int, n int64, callers int, variant string) bool {
 			now := base.Add(time.Duration(callerMs) * time.Millisecond)
 			sec := now.Unix()
+			if (variant == "now" || variant == "nowctx") && (n != 1 || !time.Now().Equal(now)) {
+				variant = "" // Allow()/AllowCtx() read time.Now(): only meaningful while the bubble clock is the caller clock
+			}
 			evalsBefore := srv.evalCount("{" + keys[l] + "}.tokens")
 			got := make([]bool, callers)
+			t0 := srv.realNow()
 			if callers == 1 {
-				got[0] = lims[l].AllowN(now, int(n))
+				switch variant {
+				case "ctx":
+					got[0] = lims[l].AllowNCtx(context.Background(), now, int(n))
+					classes["entry-AllowNCtx"] = true
+				case "now":
+					got[0] = lims[l].Allow()
+					classes["entry-Allow"] = true
+				case "nowctx":
+					got[0] = lims[l].AllowCtx(context.Background())
+					classes["entry-AllowCtx"] = true
+				default:
+					got[0] = lims[l].AllowN(now, int(n))
+				}
 			} else {
 				var wg sync.WaitGroup
 				for j := 0; j < callers; j++ {
@@ -268,6 +288,10 @@ func c08TokenInterp(t *testing.T, c c08TCase, rule int) (v kit.Verdict) {
 				}
 				wg.Wait()
 				classes["concurrent"] = true
+			}
+			if srv.realNow().Sub(t0) > c08Stall {
+				stalled = true
+				return false
 			}
 			evals := srv.evalCount("{"+keys[l]+"}.tokens") - evalsBefore
 			granted := 0
@@ -323,11 +347,11 @@ func c08TokenInterp(t *testing.T, c c08TCase, rule int) (v kit.Verdict) {
 			what := fmt.Sprintf("op %d %+v", i, o)
 			switch o.K {
 			case "allow":
-				if !request(what, o.L, int64(o.N), 1) {
+				if !request(what, o.L, int64(o.N), 1, o.V) {
 					break ops
 				}
 			case "callow":
-				if !request(what, o.L, int64(o.N), o.C) {
+				if !request(what, o.L, int64(o.N), o.C, "") {
 					break ops
 				}
 			case "adv":
@@ -388,13 +412,13 @@ func c08TokenInterp(t *testing.T, c c08TCase, rule int) (v kit.Verdict) {
 				onRedis[l] = false
 			}
 		}
-		if fail == "" && rule == c08RuleRestart && outages > 0 {
+		if fail == "" && !stalled && rule == c08RuleRestart && outages > 0 {
 			// liveness after a real restart: a limiter may lose single requests to
 			// dead pooled connections (each failure discards 4 of them; the pool
 			// holds some 10-20), but it must come back. One request per second and
 			// limiter until each has been served by Redis again; 40 rounds is far
 			// beyond what dead connections can explain.
-			for round := 0; round < 40 && fail == ""; round++ {
+			for round := 0; round < 40 && fail == "" && !stalled; round++ {
 				pending := false
 				for l := range lims {
 					if !onRedis[l] {
@@ -406,13 +430,13 @@ func c08TokenInterp(t *testing.T, c c08TCase, rule int) (v kit.Verdict) {
 				}
 				coupled(1000)
 				for l := range lims {
-					if !onRedis[l] && !request(fmt.Sprintf("probe %d of limiter %d after the last restart", round, l), l, 1, 1) {
+					if !onRedis[l] && !request(fmt.Sprintf("probe %d of limiter %d after the last restart", round, l), l, 1, 1, "") {
 						break
 					}
 				}
 			}
 			for l := range lims {
-				if fail == "" && !onRedis[l] {
+				if fail == "" && !stalled && !onRedis[l] {
 					fail = fmt.Sprintf("limiter %d never returned to Redis: 40 requests, one per second after the server was restarted, were all decided by the in-process bucket", l)
 				}
 			}
@@ -420,7 +444,7 @@ func c08TokenInterp(t *testing.T, c c08TCase, rule int) (v kit.Verdict) {
 		if outages > 0 {
 			time.Sleep(11 * time.Second)
 		}
-		if fail != "" {
+		if fail != "" || stalled {
 			return
 		}
 
@@ -450,6 +474,9 @@ func c08TokenInterp(t *testing.T, c c08TCase, rule int) (v kit.Verdict) {
 		v.NonTrivial = ntOutageDeny && ntRecovered
 	}
 	v.Classes = c08Classes(classes)
+	if stalled {
+		return kit.Verdict{Excluded: true, Classes: []string{"excluded-real-time-stall"}}
+	}
 	if fail != "" {
 		v.Fail = fail
 	} else if !res.OK() {
@@ -493,6 +520,7 @@ func c08TokenGen(rt *rapid.T) c08TCase {
 		model[i] = &c08Bucket{rate: int64(l.Rate), burst: int64(l.Burst)}
 	}
 	var callerMs, serverMs int64
+	decoupled := false // a caller-only step happened: the bubble clock is no longer the caller clock
 	n := rapid.IntRange(1, 60).Draw(rt, "nops")
 	for i := 0; i < n; i++ {
 		kind := rapid.SampledFrom([]string{"allow", "allow", "allow", "allow", "allow", "callow", "adv", "adv", "adv"}).Draw(rt, "kind")
@@ -505,6 +533,13 @@ func c08TokenGen(rt *rapid.T) c08TCase {
 			o := c08TOp{K: kind, L: l}
 			if kind == "allow" {
 				o.N = c08PickN(rt, avail, b.burst)
+				vs := []string{"", "", "", "", "ctx"}
+				if !decoupled {
+					vs = append(vs, "now", "nowctx")
+				}
+				if o.V = rapid.SampledFrom(vs).Draw(rt, "entry"); o.V == "now" || o.V == "nowctx" {
+					o.N = 1
+				}
 				b.allow(sec, serverMs, int64(o.N))
 			} else {
 				o.N = rapid.IntRange(1, 3).Draw(rt, "cn")
@@ -538,6 +573,9 @@ func c08TokenGen(rt *rapid.T) c08TCase {
 				d = 60000 + d%1000 // keep the virtual sleeps (breaker/pool idle bookkeeping) modest
 			}
 			c.Ops = append(c.Ops, c08TOp{K: "adv", D: int(d), M: mode})
+			if mode == "caller" {
+				decoupled = true
+			}
 			if mode != "server" {
 				callerMs += d
 			}
@@ -601,6 +639,7 @@ func c08OutageGenModes(rt *rapid.T, modes []string, concurrent bool) c08TCase {
 			}
 			if kind == "allow" {
 				o.N = c08PickN(rt, avail, model[l].burst)
+				o.V = rapid.SampledFrom([]string{"", "", "", "ctx"}).Draw(rt, "entry")
 			} else {
 				o.N = rapid.IntRange(1, 3).Draw(rt, "cn")
 				o.C = rapid.IntRange(2, 8).Draw(rt, "callers")
@@ -664,12 +703,12 @@ func c08OutageGenModes(rt *rapid.T, modes []string, concurrent bool) c08TCase {
 
 func TestVerif_C08_token(t *testing.T) {
 	c08GetServer()
-	kit.Run(t, "C08", "token", kit.Opts{Quick: 300, Thorough: 40000}, c08TokenGen,
+	kit.Run(t, "C08", "token", kit.Opts{Quick: 300, Thorough: 20000}, c08TokenGen,
 		func(c c08TCase) kit.Verdict { return c08TokenInterp(t, c, c08RuleToken) })
 }
 
 func TestVerif_C08_outage(t *testing.T) {
 	c08GetServer()
-	kit.Run(t, "C08", "token-outage", kit.Opts{Quick: 250, Thorough: 24000}, c08OutageGen,
+	kit.Run(t, "C08", "token-outage", kit.Opts{Quick: 250, Thorough: 12000}, c08OutageGen,
 		func(c c08TCase) kit.Verdict { return c08TokenInterp(t, c, c08RuleOutage) })
 }
